@@ -1,6 +1,6 @@
 // Independent readers of ruler's state files (bincode layout) and the ticket computations of rules and source lists.
 use std::collections::BTreeMap;
-use crate::sha256::{b62, sha256, ticket_of};
+use crate::sha256::{sha256, ticket_of};
 
 pub struct Rd<'a> { b : &'a [u8], p : usize }
 impl<'a> Rd<'a>
